@@ -161,3 +161,15 @@ def dedupAdj : List HVer → List HVer
 
 def histKeyFwdD (tombs : Bool) (range : Option (Nat × Nat)) (snap : Nat) (vs : List HVer) : List HVer :=
   histKeyFwd tombs range snap false false false (dedupAdj vs)
+
+
+/-! ## back-filled timestamps
+
+With the version index a version may be written with a timestamp older than existing ones.  The index keeps a
+key's versions by timestamp; the property's "newest first" and "earlier versions" are then about timestamps. -/
+
+/-- the versions of a key by timestamp, newest first (commit order breaks ties): the order of the version index -/
+def insTs (v : HVer) : List HVer → List HVer
+  | [] => [v]
+  | x :: xs => if v.ts > x.ts || (v.ts == x.ts && v.seq > x.seq) then v :: x :: xs else x :: insTs v xs
+def sortTs (l : List HVer) : List HVer := l.foldr insTs []
